@@ -41,7 +41,9 @@ func (v *pruneVisitor) Visit(n ast.Node) ast.Visitor {
 	return &pruneVisitor{v.log, v.path}
 }
 func (v *pruneVisitor) VisitMany(ns []ast.Node) ast.Visitor { v.log.many++; return v }
-func (v *pruneVisitor) Field(name string) ast.Visitor      { return &pruneVisitor{v.log, v.path + "." + name} }
+func (v *pruneVisitor) Field(name string) ast.Visitor {
+	return &pruneVisitor{v.log, v.path + "." + name}
+}
 func (v *pruneVisitor) Index(i int) ast.Visitor {
 	return &pruneVisitor{v.log, fmt.Sprintf("%s[%d]", v.path, i)}
 }
